@@ -68,23 +68,42 @@ def insertId (x : Id) : List Id → List Id
 /-- the sorted lookup table of a segment (`commit_lookup` keys / the lookup table of the file) -/
 def sortIds (l : List Id) : List Id := l.foldr insertId []
 
-/-- number of table entries smaller than `key`: where the binary search ends / where
-`BTreeMap::range(key..)` starts -/
+/-- number of table entries smaller than `key` (specification of the position the binary search
+returns and of where `BTreeMap::range(key..)` starts) -/
 def lowerBound : List Id → Id → Nat
   | [], _ => 0
   | x :: xs, key => if idLt x key then lowerBound xs key + 1 else 0
 
+/-- `binary_search_pos_by` of `readonly.rs` on the sorted lookup table: `(found, pos)` is
+`Ok(pos)` / `Err(pos)`.  (The `BTreeMap` of the mutable segment answers `range` queries with the
+same position; `Lemmas/IdPrefix` proves `pos = lowerBound` on a sorted table.) -/
+def bsearch (tbl : List Id) (key : Id) : Nat → Nat → Nat → Bool × Nat
+  | 0, low, _ => (false, low)
+  | fuel + 1, low, high =>
+    if low < high then
+      let mid := (low + high) / 2
+      match tbl[mid]? with
+      | none => (false, low)
+      | some x =>
+        if idLt x key then bsearch tbl key fuel (mid + 1) high
+        else if x = key then (true, mid)
+        else bsearch tbl key fuel low mid
+    else (false, low)
+
+def lookupPos (tbl : List Id) (key : Id) : Bool × Nat := bsearch tbl key (tbl.length + 1) 0 tbl.length
+
 /-- `PositionLookupResult::neighbors` + `map_neighbors` (`resolve_neighbor_ids` on a `BTreeMap`) -/
 def neighborsIn (tbl : List Id) (key : Id) : Option Id × Option Id :=
-  let pos := lowerBound tbl key
+  let r := lookupPos tbl key
+  let pos := r.2
   let prev := if pos = 0 then none else tbl[pos - 1]?
-  let next := if tbl[pos]? = some key then tbl[pos + 1]? else tbl[pos]?
+  let next := if r.1 then tbl[pos + 1]? else tbl[pos]?
   (prev, next)
 
-/-- `PositionLookupResult::prefix_matches` / `resolve_id_prefix`: scan from the lower bound of
+/-- `PositionLookupResult::prefix_matches` / `resolve_id_prefix`: scan from the position found for
 `min_prefix_bytes` while the prefix matches -/
 def prefixMatches (tbl : List Id) (p : Id) : Resolution Id :=
-  match ((tbl.drop (lowerBound tbl (padEven p))).takeWhile (matchesPrefix p)) with
+  match ((tbl.drop (lookupPos tbl (padEven p)).2).takeWhile (matchesPrefix p)) with
   | [] => .noMatch
   | [x] => .single x
   | _ => .ambiguous
